@@ -30,7 +30,7 @@ def handle (ws : List String) : String :=
       let hv := Gen.C17.havA a b c d
       let near := Gen.C17.gcdNear a b c d
       let far := Gen.C17.gcdFar a b c d
-      s!"{showFloat (gcdSelect hv far near)} {showFloat hv} {showFloat near} {showFloat far}"
+      s!"{showFloat (Gen.C17.gcdSelect hv far near)} {showFloat hv} {showFloat near} {showFloat far}"
     | _ => "bad-op"
   | "bear" :: rest =>
     match floats rest with
